@@ -9,6 +9,7 @@
 //! usage: c05 exh <bound> <shard> <nshards> <seed> <maxexecs-per-program>
 //!        c05 rnd <count> <shard> <nshards> <seed>
 //!        c05 one <bitset|counting> <cap> <tcap|inf> <listener modes: t|d|b ...> <notifier programs "0,0|9"> <failfull flags "01"> <schedule "0,0,1">
+//!        c05 search <bound> <shard> <nshards> <maxexecs-per-program>   (implementation alone, no model: slow-path shapes, native oracle)
 //!        c05 wit                          (the lost wake-up witnesses, replayed on the real code)
 //!        c05 trig                         (sequential behaviour of the three REAL triggers)
 //!        c05 sem <timeout ms>             (lost wake-up on the REAL semaphore trigger, timed_wait as observable)
@@ -228,6 +229,24 @@ where <MtEvent<E> as Event<E>>::Listener: Sync, <MtEvent<E> as Event<E>>::Notifi
             let mut visit = |ex: &ExecB| { let i = cur.borrow(); emit(c, ex, i.as_ref().unwrap(), &mut **outcell.borrow_mut(), false); };
             explore_b(*bound, *maxexecs, &mut mk, &mut visit)
         }
+        RunMode::Search(bound, maxexecs) => {
+            // the implementation alone (no model, no driver): the oracle is evaluated here
+            let cur: std::cell::RefCell<Option<Inst<E>>> = std::cell::RefCell::new(None);
+            let mut mk = || { let inst = mk_inst::<E>(c); let b = bodies(c, &inst); *cur.borrow_mut() = Some(inst); b };
+            let outcell = std::cell::RefCell::new(out);
+            let seen: std::cell::RefCell<std::collections::HashSet<String>> = std::cell::RefCell::new(Default::default());
+            let mut visit = |ex: &ExecB| {
+                let i = cur.borrow();
+                let fin = final_obs(i.as_ref().unwrap());
+                if let Some((class, msg)) = oracle(c, ex, &fin) {
+                    if seen.borrow_mut().insert(class.clone()) {
+                        let sched: Vec<String> = ex.choices.iter().map(|c| c.to_string()).collect();
+                        let _ = writeln!(outcell.borrow_mut(), "SEARCH-FOUND {} | {} | S {} | {}", class, c.header(), sched.join(","), msg);
+                    }
+                }
+            };
+            explore_b(*bound, *maxexecs, &mut mk, &mut visit)
+        }
         RunMode::Random(seed) => {
             let inst = mk_inst::<E>(c);
             let ex = run_random_b(*seed, bodies(c, &inst));
@@ -247,7 +266,7 @@ where <MtEvent<E> as Event<E>>::Listener: Sync, <MtEvent<E> as Event<E>>::Notifi
     }
 }
 
-enum RunMode { Explore(usize, usize), Random(u64), Sched(Vec<usize>, bool) }
+enum RunMode { Explore(usize, usize), Search(usize, usize), Random(u64), Sched(Vec<usize>, bool) }
 
 fn run_any(c: &Case, mode: &RunMode, out: &mut impl Write) -> usize {
     if c.kind == "bitset" { run_case::<RelocatableBitSet>(c, mode, out) } else { run_case::<RelocatableCountingBitSet>(c, mode, out) }
@@ -262,6 +281,8 @@ fn programs() -> Vec<Case> {
     for (kind, cap, a, b, c) in [("bitset", 10usize, 0usize, 1usize, 9usize), ("counting", 3, 0, 1, 2)] {
         let nps: Vec<Vec<Vec<usize>>> = vec![
             vec![vec![a]], vec![vec![a, a]], vec![vec![a, c]], vec![vec![a], vec![a]], vec![vec![a], vec![c]],
+            // slow path: the listener is already blocked when the first notify (later word) arrives, a second notifier (earlier word) comes during the drain
+            vec![vec![c], vec![a]], vec![vec![c], vec![c]],
             vec![vec![a, c], vec![c]], vec![vec![a], vec![a, a]], vec![vec![a, b], vec![c, a]], vec![vec![a], vec![b], vec![c]], vec![vec![a], vec![a], vec![c, a]],
         ];
         for lm in lms {
@@ -278,6 +299,77 @@ fn programs() -> Vec<Case> {
                     let mut ff = vec![false; np.len()]; ff[0] = ffv; if np.len() > 2 { ff[2] = ffv; }
                     v.push(Case { kind, cap, tcap: Some(1), lmodes: lm.chars().collect(), nprogs: np.clone(), ff });
                 }
+            }
+        }
+    }
+    v
+}
+
+/// The property's oracle on the implementation's own observations of one execution (no model):
+/// returns (class, message).  class "known" = the known lost wake-up configuration
+/// (notification_state = Notified, trigger empty, listener blocked), anything else is unkeyed.
+fn oracle(c: &Case, ex: &ExecB, fin: &(u8, u64, Vec<(usize, u64)>)) -> Option<(String, String)> {
+    use std::collections::HashMap;
+    let mut notified: HashMap<usize, u64> = HashMap::new();
+    let mut ok_ret: HashMap<usize, u64> = HashMap::new();
+    let mut delivered: HashMap<usize, u64> = HashMap::new();
+    let mut pos = vec![0usize; c.nprogs.len()];
+    for r in &ex.log {
+        if let Rec::Ret { tid, code } = r {
+            if *code == u64::MAX { return Some(("panic".into(), format!("thread {} panicked", tid))); }
+            if *tid == 0 {
+                if code % 2 == 1 {
+                    let x = code / 2; let (id, cnt) = ((x % 1024) as usize, x / 1024);
+                    *delivered.entry(id).or_default() += cnt;
+                    let inflight: u64 = c.nprogs.iter().enumerate().map(|(u, p)| if pos[u] < p.len() && p[pos[u]] == id { 1 } else { 0 }).sum();
+                    if delivered[&id] > notified.get(&id).copied().unwrap_or(0) + inflight {
+                        return Some(("phantom".into(), format!("id {} reported {} times, only {} notifies completed or in flight", id, delivered[&id], notified.get(&id).copied().unwrap_or(0) + inflight)));
+                    }
+                    if cnt == 0 || (c.kind == "bitset" && cnt != 1) { return Some(("bad-count".into(), format!("id {} reported with count {}", id, cnt))); }
+                }
+            } else {
+                let u = tid - 1;
+                if pos[u] < c.nprogs[u].len() {
+                    let id = c.nprogs[u][pos[u]]; pos[u] += 1;
+                    if id < c.cap { *notified.entry(id).or_default() += 1; }
+                    if *code == 0 { *ok_ret.entry(id).or_default() += 1; }
+                }
+            }
+        }
+    }
+    let (ns, tk, left) = fin;
+    for (i, _) in left { if !notified.contains_key(i) { return Some(("phantom-pending".into(), format!("id {} pending but never notified", i))); } }
+    let done = c.nprogs.iter().enumerate().all(|(u, p)| pos[u] == p.len());
+    if !done { return None; }
+    for (i, n) in &notified {
+        let p = left.iter().find(|(j, _)| j == i).map(|x| x.1).unwrap_or(0);
+        let d = delivered.get(i).copied().unwrap_or(0);
+        if c.kind == "counting" { if d + p != *n { return Some(("dropped".into(), format!("counting: id {} notified {}, delivered {} + pending {}", i, n, d, p))); } }
+        else if d + p == 0 { return Some(("dropped".into(), format!("bit set: id {} notified {} times, never delivered and not pending", i, n))); }
+    }
+    if !ex.blocked_forever.is_empty() {
+        if let Some((i, _)) = left.iter().find(|(i, _)| ok_ret.get(i).copied().unwrap_or(0) > 0) {
+            let known = *ns == 2 && *tk == 0 && ex.blocked_forever == vec![0];
+            return Some((if known { "known".into() } else { "lost-wakeup-other".into() },
+                format!("listener blocked forever (notification_state={}, trigger tokens={}) while id {}, whose notify returned Ok, is pending and undelivered", ns, tk, i)));
+        }
+    }
+    None
+}
+
+/// the shapes the search phase explores on the implementation alone: above all the SLOW path
+/// (the listener is already inside a blocking wait when the first notify arrives, and further
+/// notifiers arrive while it drains -- ids in the same or an earlier word), plus polling shapes
+fn search_programs() -> Vec<Case> {
+    let mut v = Vec::new();
+    for (kind, cap, a, b, c) in [("bitset", 10usize, 0usize, 1usize, 9usize), ("counting", 3, 0, 1, 2)] {
+        let nps: Vec<Vec<Vec<usize>>> = vec![
+            vec![vec![c], vec![a]], vec![vec![a], vec![a]], vec![vec![c], vec![c]], vec![vec![c], vec![a, a]],
+            vec![vec![a, c], vec![a]], vec![vec![c], vec![b], vec![a]], vec![vec![a, a]], vec![vec![c, a]],
+        ];
+        for lm in ["bb", "bbb", "tb", "db", "tbb"] {
+            for np in &nps {
+                v.push(Case { kind, cap, tcap: None, lmodes: lm.chars().collect(), nprogs: np.clone(), ff: vec![false; np.len()] });
             }
         }
     }
@@ -321,8 +413,20 @@ fn main() {
             let maxexecs: usize = a.get(6).map(|s| s.parse().unwrap()).unwrap_or(100000);
             for (i, c) in programs().into_iter().enumerate() {
                 if i % nsh != shard { continue; }
+                // every schedule with at most one preemption (complete), then the deeper bound (first maxexecs, depth-first)
+                if bound > 1 { run_any(&c, &RunMode::Explore(1, 100000), &mut out); }
                 run_any(&c, &RunMode::Explore(bound, maxexecs), &mut out);
             }
+        }
+        "search" => {
+            let bound: usize = a[2].parse().unwrap(); let shard: usize = a[3].parse().unwrap(); let nsh: usize = a[4].parse().unwrap();
+            let maxexecs: usize = a.get(5).map(|s| s.parse().unwrap()).unwrap_or(100000);
+            let mut total = 0usize;
+            for (i, c) in search_programs().into_iter().enumerate() {
+                if i % nsh != shard { continue; }
+                total += run_any(&c, &RunMode::Search(bound, maxexecs), &mut out);
+            }
+            let _ = writeln!(out, "SEARCHED {}", total);
         }
         "rnd" => {
             let count: u64 = a[2].parse().unwrap(); let shard: u64 = a[3].parse().unwrap(); let nsh: u64 = a[4].parse().unwrap(); let seed: u64 = a[5].parse().unwrap();
